@@ -21,14 +21,15 @@ if g++ -std=c++17 -O1 -I$WT/include $SD/demo.cpp -o /tmp/demo-$$ 2>/tmp/demo-$$.
 else RES_WITHOUT="compile-error"; fi
 git -C /repo worktree remove --force $WT
 echo "demo with patch: exit=$RES_WITH ; without: exit=$RES_WITHOUT"
-SUITE=$(/tmp/jc-verify-run.sh $SD/patch.diff 2>&1 | grep RESULT | head -1)
+RUNNER=${SEED_RUNNER:-/tmp/jc-verify-run.sh}
+SUITE=$($RUNNER $SD/patch.diff 2>&1 | grep RESULT | head -1)
 echo "suite: $SUITE"
 # run the check against a scratch copy of /repo/include with the patch applied (equivalent to git -C /repo apply; run;
 # git -C /repo checkout -- . ; the copy keeps /repo untouched while other work reads it)
 SC=/tmp/seed-include-$$
 rm -rf $SC; mkdir -p $SC; cp -r /repo/include $SC/include
 (cd $SC && patch -p1 -s < $SD/patch.diff) || echo "apply to copy failed"
-cd /verif && VERIF_REPO_INCLUDE=$SC/include python3 bin/vcheck $PID --tier quick > /tmp/seedcheck-$$.log 2>&1; CRC=$?
+cd /verif && VERIF_OUT_DIR=$SC/out VERIF_REPO_INCLUDE=$SC/include python3 bin/vcheck $PID --tier quick > /tmp/seedcheck-$$.log 2>&1; CRC=$?
 rm -rf $SC
 grep -E "^VIOLATION|^include" /tmp/seedcheck-$$.log | head -4
 echo "check exit=$CRC"
@@ -39,7 +40,7 @@ json.dump({"property": "$PID", "name": "$NAME", "demo_exit_with_patch": "$RES_WI
   "suite_with_patch": """$SUITE""".strip(), "check_exit_on_patched_tree": $CRC,
   "detected": $CRC == 1,
   "ran": ["git apply patch.diff in a scratch worktree; g++ -std=c++17 -O1 -I<wt>/include demo.cpp && ./demo (with and without the patch)",
-          "/tmp/jc-verify-run.sh patch.diff (apply in a pre-built tree, rebuild unit_tests, ctest, revert)",
+          "$RUNNER patch.diff (apply in a pre-built tree, rebuild unit_tests, ctest, revert)",
           "patch applied to a scratch copy of /repo/include; VERIF_REPO_INCLUDE=<copy> python3 bin/vcheck $PID --tier quick"],
   "needs_to_manifest": open("$SD/notes.md").read()[:1500] if __import__('os').path.exists("$SD/notes.md") else ""},
   open("$OUT/meta.json","w"), indent=1)
